@@ -228,7 +228,7 @@ func c08SetLimit(r *R, f *core.FSM) {
 	}
 	if a := f.Action["SetDataLimit"]; a != nil && len(a.Params) == 2 {
 		sts := storesTo(a, "DataLimit")
-		r.c.Check(len(sts) == 1 && r.d.Of(sts[0].Val) == a.Params[1].Name(), "C08.6", "SetDataLimit/action", r.p.Pos(a.Pos()), "DataLimit := argument", "the SetDataLimit action does not store its argument to DataLimit")
+		r.c.Check(len(sts) == 1 && r.d.Of(sts[0].Val) == core.ParamName(a.Params[1]), "C08.6", "SetDataLimit/action", r.p.Pos(a.Pos()), "DataLimit := argument", "the SetDataLimit action does not store its argument to DataLimit")
 	}
 	// cache side: the new limit replaces the cached one under the write lock
 	sc := r.fn("C08.6", "channels", "progressCache", "setDataLimit")
